@@ -9,6 +9,7 @@
 //   clang-14 -fsyntax-only -fplugin=carqfacts.so -Xclang -plugin -Xclang carqfacts \
 //      -Xclang -plugin-arg-carqfacts -Xclang root=/repo \
 //      -Xclang -plugin-arg-carqfacts -Xclang out=/tmp/x.json  <flags> file.c
+#include <algorithm>
 #include "clang/AST/ASTConsumer.h"
 #include "clang/AST/ASTContext.h"
 #include "clang/AST/Attr.h"
@@ -64,6 +65,8 @@ struct Emitter {
   std::map<const Decl *, int> DeclIds;
   int NextId = 0;
   std::vector<const OMPExecutableDirective *> OmpDirs;
+  // records defined outside the root (library headers: z_stream, ...) whose members the code touches
+  std::vector<const RecordDecl *> ExtRecs;
 
   Emitter(ASTContext &C, std::string R, llvm::raw_ostream &O)
       : Ctx(C), SM(C.getSourceManager()), Root(std::move(R)), OS(O) {}
@@ -174,6 +177,12 @@ struct Emitter {
       if (const auto *FD = dyn_cast<FieldDecl>(D)) {
         OS << ",\"rec\":\"" << jesc(recordName(FD->getParent())) << "\"";
         if (FD->isAnonymousStructOrUnion()) OS << ",\"anon\":1";
+        {
+          const RecordDecl *PR = FD->getParent();
+          if (PR && PR->isCompleteDefinition() && !inRoot(PR->getLocation()) &&
+              std::find(ExtRecs.begin(), ExtRecs.end(), PR) == ExtRecs.end())
+            ExtRecs.push_back(PR);
+        }
       }
       if (ME->isArrow()) OS << ",\"arrow\":1";
     } else if (const auto *IL = dyn_cast<IntegerLiteral>(S)) {
@@ -540,6 +549,11 @@ public:
     for (size_t i = 0; i < FDecls.size(); i++) { if (i) OS << ","; E.emitFuncDecl(FDecls[i]); }
     OS << "],\"functions\":[";
     for (size_t i = 0; i < FDefs.size(); i++) { if (i) OS << ",\n"; E.emitFunction(FDefs[i]); }
+    OS << "],\"extrecords\":[";
+    {
+      std::vector<const RecordDecl *> Ext = E.ExtRecs;      // emitRecord may not add to it, but copy anyway
+      for (size_t i = 0; i < Ext.size(); i++) { if (i) OS << ","; E.emitRecord(Ext[i]); }
+    }
     OS << "]}\n";
   }
 
